@@ -99,7 +99,7 @@ def apply_rewrites():
         try:
             txt = open(src).read()
         except OSError as e:
-            problems.append("rewrite %s: %s" % (rel, e))
+            problems.append((None, "rewrite %s: %s" % (rel, e)))
             continue
         for pid, rw in rws:
             hits = 0
@@ -107,7 +107,7 @@ def apply_rewrites():
                 hits += txt.count(old)
                 txt = txt.replace(old, new)
             if hits < rw.get("min_hits", 1):
-                problems.append("rewrite for %s no longer applies to %s (%d hits)" % (pid, rel, hits))
+                problems.append((pid, "rewrite for %s no longer applies to %s (%d hits)" % (pid, rel, hits)))
         dst = os.path.join(BUILD, "overlay_src", rel)
         os.makedirs(os.path.dirname(dst), exist_ok=True)
         if not os.path.exists(dst) or open(dst).read() != txt:
@@ -116,13 +116,16 @@ def apply_rewrites():
     return extra, problems
 
 
-def build_harness():
-    """go build of xmth against the current /repo tree. Returns (ok, output)."""
+def build_harness(pid=None):
+    """go build of xmth against the current /repo tree. Returns (ok, output, anchors): `anchors` lists
+    the injection points (source rewrites) of property `pid` that no longer apply. The build is
+    attempted all the same - the rewritten code calls the hooks, not the other way round - so that the
+    oracles can still search for a failing input; a lost anchor of ANOTHER property does not concern
+    this one (its own check reports it)."""
     with Lock("go"):
         shutil.copyfile(os.path.join(REPO, "go.sum"), os.path.join(GO, "go.sum"))
         extra, problems = apply_rewrites()
-        if problems:
-            return False, "\n".join(problems)
+        anchors = [m for p, m in problems if p is None or p == pid or pid is None]
         ov = write_overlay(extra)
         gomod = open(os.path.join(GO, "go.mod")).read()
         want = "replace github.com/iDigitalFlame/xmt => %s" % REPO
@@ -131,7 +134,7 @@ def build_harness():
             open(os.path.join(GO, "go.mod"), "w").write(gomod)
         rc, out, dt = run(["go", "build", "-tags", "verif", "-overlay", ov, "-ldflags=-checklinkname=0",
                            "-o", os.path.join(BUILD, "xmth"), "./cmd/xmth"], cwd=GO, env=GOENV, timeout=600)
-        return rc == 0, out
+        return rc == 0, out, anchors
 
 
 def regen_facts():
@@ -288,7 +291,10 @@ def main(argv):
     notes = {}
 
     # 1. harness build
-    ok, out = build_harness()
+    ok, out, anchors = build_harness(pid)
+    if anchors:
+        broken.append({"what": "rewrite-anchor", "detail": "\n".join(anchors)[-3000:],
+                       "names": ["correspondence: " + a for a in anchors[:5]]})
     if not ok:
         broken.append({"what": "harness-build", "detail": out[-3000:],
                        "names": ["correspondence: harness no longer builds against /repo"]})
